@@ -1244,3 +1244,46 @@ _dispatch_event_loop_drain_timers(dispatch_timer_heap_t dth, uint32_t count)
 		 */
 	} while (unlikely(dth[0].dth_dirty_bits));
 }
+
+#ifdef DISPATCH_VERIF
+#pragma mark verification shim (timer heap)
+// Exposes the static double-heap primitives on a stand-alone heap so that a
+// harness can drive them against a sorted-set model. Not used by the library.
+typedef struct _dispatch_verif_heap_s {
+	struct dispatch_timer_heap_s dth;
+} *_dispatch_verif_heap_t;
+
+DISPATCH_EXPORT void *_dispatch_verif_heap_create(void);
+DISPATCH_EXPORT void _dispatch_verif_heap_destroy(void *h);
+DISPATCH_EXPORT void *_dispatch_verif_heap_record_create(uint64_t target, uint64_t deadline);
+DISPATCH_EXPORT void _dispatch_verif_heap_record_destroy(void *r);
+DISPATCH_EXPORT void _dispatch_verif_heap_insert(void *h, void *r);
+DISPATCH_EXPORT void _dispatch_verif_heap_remove(void *h, void *r);
+DISPATCH_EXPORT void _dispatch_verif_heap_update(void *h, void *r, uint64_t target, uint64_t deadline);
+DISPATCH_EXPORT uint32_t _dispatch_verif_heap_count(void *h);
+DISPATCH_EXPORT void *_dispatch_verif_heap_slot(void *h, uint32_t idx);
+DISPATCH_EXPORT uint32_t _dispatch_verif_heap_record_entry(void *r, uint32_t heap_id);
+DISPATCH_EXPORT uint64_t _dispatch_verif_heap_record_key(void *r, uint32_t heap_id);
+
+void *_dispatch_verif_heap_create(void) { return _dispatch_calloc(1, sizeof(struct _dispatch_verif_heap_s)); }
+void _dispatch_verif_heap_destroy(void *h) { _dispatch_verif_heap_t vh = h; while (vh->dth.dth_segments) _dispatch_timer_heap_shrink(&vh->dth); free(vh); }
+void *_dispatch_verif_heap_record_create(uint64_t target, uint64_t deadline) {
+	dispatch_timer_source_refs_t dt = _dispatch_calloc(1, sizeof(*dt));
+	dt->dt_timer.target = target; dt->dt_timer.deadline = deadline;
+	dt->dt_heap_entry[DTH_TARGET_ID] = DTH_INVALID_ID;
+	dt->dt_heap_entry[DTH_DEADLINE_ID] = DTH_INVALID_ID;
+	return dt;
+}
+void _dispatch_verif_heap_record_destroy(void *r) { free(r); }
+void _dispatch_verif_heap_insert(void *h, void *r) { _dispatch_timer_heap_insert(&((_dispatch_verif_heap_t)h)->dth, r); }
+void _dispatch_verif_heap_remove(void *h, void *r) { _dispatch_timer_heap_remove(&((_dispatch_verif_heap_t)h)->dth, r); }
+void _dispatch_verif_heap_update(void *h, void *r, uint64_t target, uint64_t deadline) {
+	dispatch_timer_source_refs_t dt = r;
+	dt->dt_timer.target = target; dt->dt_timer.deadline = deadline;
+	_dispatch_timer_heap_update(&((_dispatch_verif_heap_t)h)->dth, dt);
+}
+uint32_t _dispatch_verif_heap_count(void *h) { return ((_dispatch_verif_heap_t)h)->dth.dth_count; }
+void *_dispatch_verif_heap_slot(void *h, uint32_t idx) { return *_dispatch_timer_heap_get_slot(&((_dispatch_verif_heap_t)h)->dth, idx); }
+uint32_t _dispatch_verif_heap_record_entry(void *r, uint32_t heap_id) { return ((dispatch_timer_source_refs_t)r)->dt_heap_entry[heap_id]; }
+uint64_t _dispatch_verif_heap_record_key(void *r, uint32_t heap_id) { return ((dispatch_timer_source_refs_t)r)->dt_timer.heap_key[heap_id]; }
+#endif // DISPATCH_VERIF
